@@ -50,8 +50,9 @@ PROGRAM = [
 def layout(program):
     """-> list of (line, column, kind, text)"""
     out = []
-    for line, toks in program:
-        col = 1
+    for entry in program:
+        line, toks = entry[0], entry[1]
+        col = 1 + (entry[2] if len(entry) > 2 else 0)       # optional third item: columns of leading whitespace
         for kind, text in toks:
             out.append((line, col, kind, text))
             col += len(text.split("\n")[-1]) + 1
@@ -165,6 +166,12 @@ def with_more_comments(program):
     return out
 
 
+def with_wide_lines(program, lines=(2, 21), indent=5000):
+    """the same program with some lines pushed far to the right by leading whitespace (a generated / minified-style file): the
+    columns of a span move with it, names, lengths, order and which functions are reported do not"""
+    return [(line, toks, indent) if line in lines else (line, toks) for line, toks in program]
+
+
 def without_marker(program):
     return [(line, [(k, t if "nocl because" not in t else "// plain comment") for k, t in toks]) for line, toks in program]
 
@@ -196,7 +203,8 @@ def scenarios(prj: Project):
     lab = Lab(prj)
     out = []
     for name, prog in (("program", PROGRAM), ("program with a comment line before every line and a trailing comment on every code line", with_more_comments(PROGRAM)),
-                       ("program without the marker on fnD's line", without_marker(PROGRAM))):
+                       ("program without the marker on fnD's line", without_marker(PROGRAM)),
+                       ("program with two lines that open a function's block pushed 5000 columns to the right by leading whitespace", with_wide_lines(PROGRAM))):
         for nested in (True, False):
             out.append((name, nested, lab.run(prog, nested), expected(prog, nested)))
     out.append(("what the language object is handed", None, lab.handed, None))
